@@ -26,6 +26,10 @@ def to_tree(test, classify=None, norm_fn=None):
         return ("or", [("and", [c, to_tree(test.body, classify, nf)]), ("and", [("not", c), to_tree(test.orelse, classify, nf)])])
     if isinstance(test, ast.Constant):
         return ("const", bool(test.value))
+    if isinstance(test, ast.Call) and isinstance(test.func, ast.Name) and test.func.id == "isinstance" and len(test.args) == 2 \
+            and isinstance(test.args[1], ast.Tuple) and test.args[1].elts and not test.keywords:
+        # isinstance(x, (A, B)) is isinstance(x, A) or isinstance(x, B)
+        return ("or", [to_tree(ast.Call(func=test.func, args=[test.args[0], e], keywords=[]), classify, nf) for e in test.args[1].elts])
     neg = False
     leaf = test
     if isinstance(test, ast.Compare) and len(test.ops) == 1 and type(test.ops[0]) in _FLIP:
@@ -123,3 +127,57 @@ def known(g, node, classify, goal, goal_vars=(), norm_fn=None, with_node=False, 
     """path form of `goal is known at node`: every entry->node path crosses a branch edge that forces goal.
     expand_test(test_ast, branch_node) may rewrite the test first (locals expanded, helpers inlined)."""
     return must_cross(g, node, branch_edge_entails(classify, goal, goal_vars, norm_fn, with_node, expand_test), start)
+
+
+def _satisfiable(constraints):
+    """is there an assignment making every (tree, polarity) constraint hold? (truth table, at most 2**12 rows; True if too large)"""
+    vs = set()
+    for t, _ in constraints:
+        tree_vars(t, vs)
+    vs = sorted(vs)
+    if len(vs) > 12:
+        return True
+    for bits in itertools.product((False, True), repeat=len(vs)):
+        a = dict(zip(vs, bits))
+        if all(eval_tree(t, a) == pol for t, pol in constraints):
+            return True
+    return False
+
+
+def reach_feasible(g, starts, target, stop_ids=(), classify=None, norm_fn=None, skip_kinds=("exc",), limit=4000):
+    """is `target` reachable from one of `starts` along a path that (a) enters no node of stop_ids and (b) is propositionally
+    feasible: the branch outcomes taken along it are jointly satisfiable, where a test's knowledge is dropped as soon as
+    one of the names it reads is re-bound.  Leaves are identified by classify(leaf) or their text, so two spellings of
+    one test agree only through classify / norm_fn.  Over-approximates feasibility (opaque leaves are free)."""
+    from .dataflow import node_defs
+    seen = set()
+    stack = [(s0, ()) for s0 in starts]
+    steps = 0
+    while stack:
+        n, cons = stack.pop()
+        steps += 1
+        if steps > limit:
+            return True
+        if n.id == target.id:
+            return True
+        if n.id in stop_ids:
+            continue
+        key = (n.id, tuple(sorted((repr(t), p) for t, p, _ in cons)))
+        if key in seen:
+            continue
+        seen.add(key)
+        defs = set(node_defs(n)) if n.kind not in ("branch",) else set()
+        if defs:
+            cons = tuple(c for c in cons if not (c[2] & defs))
+        for kind, m in n.succ:
+            if kind in skip_kinds:
+                continue
+            c2 = cons
+            if n.kind == "branch" and kind in ("true", "false"):
+                tree = to_tree(n.ast.test, classify, norm_fn)
+                names = frozenset(y.id for y in ast.walk(n.ast.test) if isinstance(y, ast.Name))
+                c2 = cons + ((tree, kind == "true", names),)
+                if not _satisfiable([(t, p) for t, p, _ in c2]):
+                    continue
+            stack.append((m, c2))
+    return False
